@@ -3,6 +3,7 @@
 #pragma once
 #include "rt.hpp"
 #include "digest.hpp"
+#include "seams_stream.hpp"
 
 #include <ctpg/ctpg.hpp>
 #include <streambuf>
@@ -57,21 +58,7 @@ template<typename It>
 inline auto it_pos(const It& it) -> decltype(simrt::ptr_pos(it.ptr)) { return simrt::ptr_pos(it.ptr); }
 
 // ---------------------------------------------------------------------------------------------
-// writer: std::ostream over an unbuffered streambuf whose every chunk is an event and which can fail
-class SimStreamBuf : public std::streambuf
-{
-protected:
-    std::streamsize xsputn(const char* s, std::streamsize n) override
-    {
-        return std::streamsize(simrt::wr(s, int64_t(n)));
-    }
-    int_type overflow(int_type ch) override
-    {
-        if (traits_type::eq_int_type(ch, traits_type::eof())) return traits_type::not_eof(ch);
-        char c = traits_type::to_char_type(ch);
-        return simrt::wr(&c, 1) == 1 ? ch : traits_type::eof();
-    }
-};
+// writer: std::ostream over an unbuffered streambuf whose every chunk is an event and which can fail -> seams_stream.hpp
 
 // ---------------------------------------------------------------------------------------------
 // custom lexer peer: scripted per op, default-constructed by the library on every term request
